@@ -618,7 +618,7 @@ Definition process (seg : segment) (now : Z) : M bool :=
       when (bWriteEnable s && (sb_buffered s <? kIdeal)) (upd (fun s => s <| bWriteEnable := false |>) ;;; emit EvWritable) ;;;
       s <- get ;;
       let sflags0 := if negb (g_seq seg =? rcv_nxt s) then sfDuplicateAck
-                     else if negb (slen =? 0) then (if ack_delay s =? 0 then sfImmediateAck else sfDelayedAck)
+                     else if negb (slen =? 0) then (if (ack_delay s =? 0) || received_fin then sfImmediateAck else sfDelayedAck)
                      else if received_fin then sfImmediateAck else sfNone in
       (* trimming *)
       let '(seq1, data1) :=
